@@ -11,5 +11,7 @@ RC=$?
 git -C /repo checkout -- .
 # restore the committed Generated files (they were regenerated from the mutated tree)
 git -C /verif checkout -- coq/Generated 2>/dev/null
+# the evidence file was rewritten from the mutated tree: restore the committed one
+git -C /verif checkout -- "evidence/$ID.json" 2>/dev/null
 echo "rc=$RC"
 grep -E "^VIOLATION|^KNOWN|PROOF BROKEN|done:" /tmp/try_$ID.log | cut -c1-300
